@@ -21,7 +21,6 @@ META = dict(
                 layers="0, 1 (2 thorough)", placement="rescale in {(1,1),(2,1)}, offset in {(0,0),(1,2)}", lists="1..3 interfaces, with a repeated interface"),
     outside=["vertex positions are concrete", "8-bit saturation", "image sizes beyond 20 x 20", "read_myosin's file handling (PIL.Image.open)"],
     assumptions=["'average' normalisation: all pixels positive, the mean intensity is non-zero (division not forked on)",
-                 "homogeneity of median windows checked for the concrete factors 2 and 0.375 (symbolic factor for linear statistics)",
                  "PIL getpixel((x, y)) reads pixel (int(x), int(y)) (truncation; measured on Pillow 12.3)", "np.median = median (If-term sorting network shim)"],
     trusted=["z3"],
 )
@@ -154,9 +153,14 @@ def homogeneity(env, kind, layers, integrate, size=14, kval=None):
     be2 = _bigedge(fs, LINES[kind], 100)
     r1 = my.get_intensities([be1], img, integrate, None, layers)
     r2 = my.get_intensities([be2], img2, integrate, None, layers)
-    if env.mode == "sym" and not integrate:
-        lem = []
-    obs = [Ob("scaling-the-image-scales-the-intensity", env.eq(r2[0], k * r1[0], tol=1e-9))]
+    lem = []
+    if env.mode == "sym" and not integrate and layers >= 1:
+        # cut: one lemma per vertex window, median(k w) = k median(w)
+        for p in LINES[kind]:
+            w1 = [img.pixel(int(q[0]), int(q[1])) for q in _window(p, layers)]
+            w2 = [img2.pixel(int(q[0]), int(q[1])) for q in _window(p, layers)]
+            lem.append(env.eq(_median(env, w2), k * _median(env, w1)))
+    obs = [Ob("scaling-the-image-scales-the-intensity", env.eq(r2[0], k * r1[0], tol=1e-9), lemmas=lem)]
     # uniformly bright image
     u = env.real("u")
     imgu = SymImage(env, size, size, uniform=u)
@@ -206,7 +210,7 @@ def jobs(tier):
         for layers in ((0, 1) if quick else (0, 1, 2)):
             for integrate in (False, True):
                 # symbolic factor where the statistic is a linear form; for median windows (If-networks) two concrete factors
-                for kval in ((None,) if (layers == 0 or integrate) else (2.0, 0.375)):
+                for kval in (None,):
                     js.append(Job(f"homogeneity-{kind}-L{layers}-int{int(integrate)}-k={kval}", "c17:homogeneity",
                                   dict(kind=kind, layers=layers, integrate=integrate, kval=kval), budget_s=900, weight=3))
     js.append(Job("repeated-interface-L0", "c17:repeated", dict(layers=0), budget_s=300))
